@@ -124,7 +124,7 @@ def doc_overwrites(idx):
     return {0: None, 1: True, 2: True, 3: True, 4: False, 5: True, 6: False}[idx]
 
 
-def build(root, pres, f_state, g_state, mrel, doc_state, pdoc_state, csub=False):
+def build(root, pres, f_state, g_state, mrel, doc_state, pdoc_state, csub=False, names=("f", "sub/g")):
     """pres: 4 bits  (job0 in src, job0 in dst, job1 in src, job1 in dst). Files/doc states apply to job0; job1 carries a fixed payload."""
     src = signac.init_project(os.path.join(root, "src"))
     dst = signac.init_project(os.path.join(root, "dst"))
@@ -132,8 +132,8 @@ def build(root, pres, f_state, g_state, mrel, doc_state, pdoc_state, csub=False)
     for i, sp in enumerate(SPS):
         js[("s", i)] = src.open_job(sp).init() if pres >> (2 * i) & 1 else None
         js[("d", i)] = dst.open_job(sp).init() if pres >> (2 * i + 1) & 1 else None
-    place_file(js[("s", 0)], js[("d", 0)], "f", f_state, mrel)
-    place_file(js[("s", 0)], js[("d", 0)], "sub/g", g_state, mrel)
+    place_file(js[("s", 0)], js[("d", 0)], names[0], f_state, mrel)
+    place_file(js[("s", 0)], js[("d", 0)], names[1], g_state, mrel)
     if csub:   # the sub-directory exists on both sides with an identical file
         place_file(js[("s", 0)], js[("d", 0)], "sub/c", 3, 1)
     sd, dd = docs(doc_state)
